@@ -12,7 +12,7 @@ fn view(s: &Setup, c: &Ciphertext) -> Ciphertext { if s.scheme == SchemeType::BF
 /// `multiply_many` is only exercised with the operand counts it handles correctly on the pinned tree (1 and 2), see notes/work7-U.md:
 /// odd counts >= 3 index past the end (DESIGN.md §7), even counts >= 4 return the product of the LAST PAIR only.  `HC_MANY_ALL=1` lifts the
 /// restriction (reproduces the failing cases).
-fn many_counts() -> Vec<usize> { if std::env::var("HC_MANY_ALL").is_ok() { (1..=6).collect() } else { vec![1, 2] } }
+fn many_counts() -> Vec<usize> { (1..=6).collect() }
 
 pub fn directed_many(out: &mut Out, s: &Setup, r: &mut Rng) {
     let (n, t) = (s.n, s.t); let ev = &s.evaluator;
